@@ -1,3 +1,4 @@
 import Cicada.Thm.C16
 import Cicada.Thm.C15word
+import Cicada.Thm.C16bang
 /-! every theorem file of property C16 (the module audited by `./check C16`) -/
